@@ -255,6 +255,18 @@ class Driver:
         per-query comparison is then skipped (one defect, one key)."""
         return None
 
+    def other_model(self, model, tier="quick"):
+        """A second, different input of the same shape (same link count where
+        there is an adjacency) for the two-object family of C06."""
+        if isinstance(model, dict) and model.get("A") is not None:
+            A = np.array(model["A"])
+            n = len(A)
+            perm = [(i + 1) % n for i in range(n)]
+            m = dict(model)
+            m["A"] = A[np.ix_(perm, perm)].tolist()
+            return m
+        return self.models(tier)[-1]
+
     def clear_caches(self, obj):
         try:
             obj.cache_clear()
@@ -768,7 +780,7 @@ def climate_data(anomalies=False, window=None, T=10, time_cycle=5,
 
 class TsonisDriver(ClimateDriver):
     name = "TsonisClimateNetwork"
-    max_depth = 2
+    max_depth = 3
 
     def cls(self):
         from pyunicorn.climate import TsonisClimateNetwork
@@ -873,6 +885,12 @@ class RPDriver(Driver):
                 if e != model["emb"]:
                     ms.append(("embedding=%s;re-threshold" % (e,),
                                ["emb", e]))
+            # the documented `metric` attribute, completed like an embedding
+            # change by re-applying the current threshold rule
+            for mt_ in ("supremum", "euclidean", "manhattan"):
+                if mt_ != model["metric"]:
+                    ms.append(("metric=%s;re-threshold" % mt_,
+                               ["metric", mt_]))
         return ms
     embedding_mutator = True
 
@@ -881,6 +899,10 @@ class RPDriver(Driver):
         if spec[0].startswith("set_"):
             getattr(obj, spec[0])(spec[1])
             m["how"] = [spec[0], spec[1]]
+        elif spec[0] == "metric":
+            obj.metric = spec[1]
+            getattr(obj, model["how"][0])(model["how"][1])
+            m["metric"] = spec[1]
         elif spec[0] == "emb":
             # a change of embedding is completed by re-applying the current
             # threshold rule (R is documented as set by the set_* methods)
@@ -1271,6 +1293,7 @@ CD_WINDOWS = [
 
 class ClimateDataDriver(Driver):
     name = "ClimateData"
+    min_depth = 3     # window, global window, window again
     deny = ("shuffled_anomaly",)
     extra_queries = (["observable", [], {}], ["window", [], {}],
                      ["shuffled_anomaly", [], {}])
@@ -1472,7 +1495,7 @@ register(GridDriver())
 class _DataClimateDriver(ClimateDriver):
     """Shared by the data-derived climate networks: model = constructor
     keyword arguments; the twin is built from a fresh, identical ClimateData."""
-    max_depth = 2
+    max_depth = 3
     thresholds = (0.3, 0.6)
     density = 0.5
     T, cycle = 36, 12
